@@ -92,9 +92,17 @@ let () =
             (* the error message has been through the server's encoder and the client's decoder *)
             let fixm e = { e with M.we_msg = (match J.unmarshal_string (J.escape_string e.M.we_msg) with
                                                | Some (Some x) -> x | _ -> raise (Bad_input "message round trip")) } in
-            let err = (match m.M.j_error with Some e -> Some (fixm e) | None -> None) in
             let data_c e = (match e.M.we_data with [] -> e | d -> { e with M.we_data = compact_opt d }) in
-            W.response_marshal m.M.j_id (match err with Some e -> Some (data_c e) | None -> None) m.M.j_result
+            let err = (match m.M.j_error with
+                | Some e when W.marshal_error e = None ->
+                  (* data that json.Marshal rejects: the client holds what the model's parser reads from
+                     the model's encoding of the server's reply (fix F16: the error without its data) *)
+                  (match W.enc_msg { m with M.j_method = []; j_params = []; j_result = [] } with
+                   | Some b -> (W.parse_member b).M.j_error
+                   | None -> raise (Bad_input "the server's reply is lost"))
+                | Some e -> Some (data_c (fixm e))
+                | None -> None) in
+            W.response_marshal m.M.j_id err m.M.j_result
           | "C", _ -> W.enc_msgs false ms            (* client messages never carry the batch flag *)
           | _, _ -> W.enc_msgs (batch = "1") ms in
         let exp = match enc with
